@@ -34,7 +34,10 @@ class _Proxy:
             inj.fired = True
             sent = f.get("sent", 0)
             if sent:
-                self._fh.write(s[:sent])
+                try:
+                    self._fh.write(s[:sent])
+                except UnicodeError:  # the injected fault is the OSError, whatever the prefix contains
+                    pass
             raise OSError(errno.ENOSPC, "No space left on device (injected by the C15 harness)")
         return self._fh.write(s)
 
